@@ -19,6 +19,7 @@ import (
 	"math/rand/v2"
 	"runtime"
 	"sort"
+	"strconv"
 	"strings"
 	"sync"
 	"testing/synctest"
@@ -562,7 +563,7 @@ func (k *Kernel) Seq() uint64 { return k.step }
 func (k *Kernel) Elapsed() time.Duration { return time.Since(k.start) }
 
 func (k *Kernel) trace(format string, a ...any) {
-	s := fmt.Sprintf(format, a...)
+	s := Sf(format, a...)
 	h := k.traceHash
 	for i := 0; i < len(s); i++ {
 		h ^= uint64(s[i])
@@ -572,14 +573,14 @@ func (k *Kernel) trace(format string, a ...any) {
 	h *= 1099511628211
 	k.traceHash = h
 	if k.KeepTrace {
-		k.traceLines = append(k.traceLines, fmt.Sprintf("%6d %12s %s", k.step, k.Elapsed(), s))
+		k.traceLines = append(k.traceLines, strconv.FormatUint(k.step, 10) + "\t" + k.Elapsed().String() + "\t" + s)
 	} else {
 		// keep a short tail for diagnostics
 		if len(k.traceLines) >= 400 {
 			copy(k.traceLines, k.traceLines[200:])
 			k.traceLines = k.traceLines[:200]
 		}
-		k.traceLines = append(k.traceLines, fmt.Sprintf("%6d %12s %s", k.step, k.Elapsed(), s))
+		k.traceLines = append(k.traceLines, strconv.FormatUint(k.step, 10) + "\t" + k.Elapsed().String() + "\t" + s)
 	}
 }
 
@@ -706,7 +707,7 @@ func (k *Kernel) insertTask(t *Task) {
 		if i > 0 {
 			sb.WriteByte('.')
 		}
-		fmt.Fprintf(&sb, "%d", t.path[i])
+		sb.WriteString(strconv.Itoa(int(t.path[i])))
 	}
 	t.id = sb.String()
 	i := sort.Search(len(k.tasks), func(i int) bool { return pathLess(t, k.tasks[i]) })
@@ -739,7 +740,7 @@ func (t *Task) run(fn func()) {
 		if r := recover(); r != nil {
 			buf := make([]byte, 16<<10)
 			n := runtime.Stack(buf, false)
-			t.setPanic(fmt.Sprintf("%v\n%s", r, buf[:n]))
+			t.setPanic(Sf("%v\n%s", r, buf[:n]))
 		}
 		unregister(gid)
 		t.storeState(stDone)
@@ -932,7 +933,7 @@ func panicKey(msg string) string {
 			break
 		}
 	}
-	return fmt.Sprintf("%q at %s", first, fn)
+	return Sf("%q at %s", first, fn)
 }
 
 func (k *Kernel) releaseAllLocksOf(t *Task) {
@@ -1114,9 +1115,9 @@ func (k *Kernel) Drain() []string {
 	for _, t := range k.tasks {
 		st := t.loadState()
 		if st == stSyscall && !t.ready && t.blocked != "" {
-			k.Stuck = append(k.Stuck, fmt.Sprintf("%s(%s) blocked in sim: %s", t.id, t.label, t.blocked))
+			k.Stuck = append(k.Stuck, Sf("%s(%s) blocked in sim: %s", t.id, t.label, t.blocked))
 		} else if st == stRunning {
-			k.Stuck = append(k.Stuck, fmt.Sprintf("%s(%s) blocked in library synchronisation after %s", t.id, t.label, t.lastSite))
+			k.Stuck = append(k.Stuck, Sf("%s(%s) blocked in library synchronisation after %s", t.id, t.label, t.lastSite))
 		}
 	}
 	k.closing = true
@@ -1147,7 +1148,7 @@ func (k *Kernel) Drain() []string {
 	}
 	var left []string
 	for _, t := range k.tasks {
-		left = append(left, fmt.Sprintf("%s(%s) after %s [%s]", t.id, t.label, t.lastSite, t.blocked))
+		left = append(left, Sf("%s(%s) after %s [%s]", t.id, t.label, t.lastSite, t.blocked))
 	}
 	return left
 }
